@@ -128,6 +128,31 @@ func Run(c *fw.Ctx) {
 		T, buf, part, i := gridCell(cs.Index)
 		runCase(cs, failing[i], buildOpt{Bad: true}, T, buf, part, errReps)
 	})
+	// every scalar density type (all carry scratch state and are cloned per
+	// thread by the data sets; wrappers PdfTranslation / PdfLogTransform / Mixture
+	// included) through the four scalar data-set entry points, many observations
+	// per job
+	var tables []entryDef
+	for _, e := range entries {
+		if strings.HasPrefix(e.Name, "scalarEstimator.Mixture") && strings.HasSuffix(e.Name, "EvaluateLogPdf") ||
+			strings.HasPrefix(e.Name, "vectorEstimator.Hmm") && strings.HasSuffix(e.Name, "EvaluateLogPdf") {
+			tables = append(tables, e)
+		}
+	}
+	kinds := tableKinds([]string{"normal", "poisson", "categorical"})
+	dPools := []int{2, 4, 17}
+	c.Cases("densities", len(kinds)*len(tables)*len(dPools), func(cs *fw.Case) {
+		if skipInRaceMode(cs) {
+			return
+		}
+		i := cs.Index
+		T := dPools[i%len(dPools)]
+		i /= len(dPools)
+		e := tables[i%len(tables)]
+		kind := kinds[i/len(tables)]
+		cs.Cover("density:" + kind)
+		runCase(cs, e, buildOpt{Kind: kind}, T, 100, "more", smallReps)
+	})
 	// option combinations of the EM / Baum-Welch entry points (OptimizeEmissions,
 	// OptimizeWeights / OptimizeTransitions switched off) over the same grid
 	c.Cases("options", len(withOpts)*3*perEntry, func(cs *fw.Case) {
@@ -186,7 +211,7 @@ func skipInRaceMode(cs *fw.Case) bool {
 	return false
 }
 
-func pickN(r *prng.Rand, T int, part string) int {
+func pickN(r *prng.Rand, T int, part string, big int) int {
 	switch part {
 	case "fewer":
 		if T <= 1 {
@@ -195,6 +220,10 @@ func pickN(r *prng.Rand, T int, part string) int {
 		return r.Range(1, T-1)
 	case "equal":
 		return T
+	}
+	if big > 0 && r.Bool() {
+		// many observations per job: two threads evaluate densities at the same time
+		return T * r.Range(big, 3*big)
 	}
 	return T + r.Range(1, 2*T+6)
 }
@@ -226,7 +255,7 @@ func runCase(cs *fw.Case, def entryDef, opt buildOpt, T, buf int, part string, r
 		fmt.Sscan(k, &reps)
 	}
 	r := cs.R
-	n := pickN(r, T, part)
+	n := pickN(r, T, part, def.Big)
 	w := def.build(r, n, opt)
 	w.Entry = def.Name
 	if opt.Bad {
